@@ -49,9 +49,8 @@ def pushCenc (data : List Nat) (cenc : Nat) : Rs (List Nat) :=
 
 /-- `push_sct(data, time)`; header = `2 << 24 | 3 << 16 | 1 << 15 | 1 << 14` -/
 def pushSct (data : List Nat) (nowUs : Nat) : Rs (List Nat) :=
-  match systemTimeToNtp nowUs with
-  | .error w => .error w
-  | .ok ntp => extendInc data (beBytes 4 (2 * 2^24 + 3 * 2^16 + 2^15 + 2^14) ++ beBytes 8 ntp) 3
+  rsBind (systemTimeToNtp nowUs) fun ntp =>
+    extendInc data (beBytes 4 (2 * 2^24 + 3 * 2^16 + 2^15 + 2^14) ++ beBytes 8 ntp) 3
 
 /-- `new_alc_pkt(oti, cci, tsi, pkt, profile, now)` -/
 def newAlcPkt (oti : Oti) (cci tsi : Nat) (pkt : Pkt) (rfc3926 : Bool) (nowUs : Nat) : Rs (List Nat) :=
